@@ -537,28 +537,59 @@ def run(chk):
     # ------------------------------------------------------------------ R1.1
     r1 = chk.rule("R1.1", "every successful exit of the parse entry passes the test that no input is left (whose failing arm throws)",
                   "text the parser could not parse is never silently dropped")
-    pis = [f for f in members if f["name"] == "parse_internal"]
-    r1.anchor(len(pis) >= 1, "ChaiScript_Parser::parse_internal")
-    f = pis[0]
-    chk.touched([f])
-    stm = [n for n in walk(f["body"]) if n.get("k") == "call" and n.get("name") == "Statements"]
-    r1.anchor(len(stm) == 1, "the single call of Statements in parse_internal")
+    # entry points = every member that installs a fresh input buffer (m_position = Position(begin, end))
+    def installs_buffer(g):
+        for n in walk(g["body"]):
+            if n.get("k") == "call" and n.get("op") == "=" and n.get("obj") is not None and strip_casts(n["obj"]).get("name") == "m_position":
+                for x in walk(n.get("args", [{}])[0] if n.get("args") else {}):
+                    if x.get("k") == "construct" and is_pos_type(prog.T(g, x.get("t"))) and len([a for a in x.get("args", []) if a.get("k") != "defarg"]) == 2:
+                        return True
+        return False
 
-    def t11(n, s):
-        if n.get("k") == "call" and n.get("name") == "Statements":
-            return ("unknown",)
-        return (s,)
+    mut_cache = {}
 
-    def rf11(e, truth, s):
-        e2 = strip_casts(e)
-        if e2.get("k") == "call" and e2.get("name") == "has_more" and e2.get("obj") is not None and strip_casts(e2["obj"]).get("name") == "m_position":
-            return ("more",) if truth else ("nomore",)
-        return (s,)
-    ai = AbsInt(t11, refine=rf11)
-    fl = ai.exec(f["body"], {"before"})
-    exits = fl.returns | fl.normal
-    r1.ob("ChaiScript_Parser::parse_internal/every return after Statements() follows `!m_position.has_more()`", exits == {"nomore"}, f.where, f["q"],
-          "there is a path from Statements() to a successful return on which input may remain (exit states: %s): unparsed text is silently dropped" % sorted(exits))
+    def mutates_cursor(g):
+        """can g (transitively through parser members and their closures) move m_position?"""
+        k = fkey(g)
+        if k in mut_cache:
+            return mut_cache[k]
+        mut_cache[k] = True
+        res = False
+        for n in walk(g["body"]):
+            if n.get("k") == "call" and n.get("op") in ("++", "--", "+=", "-=", "=") and n.get("obj") is not None and strip_casts(n["obj"]).get("name") == "m_position":
+                res = True
+                break
+            if n.get("k") in ("call", "lambda") and n.get("fn") is not None:
+                c = prog.fn_by_id(g, n["fn"])
+                if c is not None and c is not g and (c in members or c.get("kind") == "lambda") and is_parser_fn(c) and mutates_cursor(c):
+                    res = True
+                    break
+        mut_cache[k] = res
+        return res
+
+    pis = [f for f in members if installs_buffer(f)]
+    r1.anchor(len(pis) >= 1 and any(f["name"] == "parse_internal" for f in pis), "the parser member(s) that install an input buffer (found %s)" % [f["name"] for f in pis])
+    chk.touched(pis)
+    for f in pis:
+        def t11(n, s, f=f):
+            if n.get("k") == "call" and n.get("fn") is not None and not n.get("op"):
+                c = prog.fn_by_id(f, n["fn"])
+                if c is not None and c in members and mutates_cursor(c):
+                    return ("unknown",)
+            if n.get("k") == "call" and n.get("op") in ("++", "+=") and n.get("obj") is not None and strip_casts(n["obj"]).get("name") == "m_position":
+                return ("unknown",)
+            return (s,)
+
+        def rf11(e, truth, s):
+            e2 = strip_casts(e)
+            if e2.get("k") == "call" and e2.get("name") == "has_more" and e2.get("obj") is not None and strip_casts(e2["obj"]).get("name") == "m_position":
+                return ("more",) if truth else ("nomore",)
+            return (s,)
+        ai = AbsInt(t11, refine=rf11)
+        fl = ai.exec(f["body"], {"before"})
+        exits = fl.returns | fl.normal
+        r1.ob("ChaiScript_Parser::%s/every successful return follows `!m_position.has_more()` with nothing consumed in between" % f["name"], exits == {"nomore"}, f.where, f["q"],
+              "this function installs an input buffer and there is a path to a successful return on which input may remain (exit states: %s): unparsed text is silently dropped" % sorted(exits, key=str))
     pe = [g for g in members if g["name"] == "parse"]
     r1.anchor(pe, "ChaiScript_Parser::parse")
     okp = any(n.get("k") == "call" and n.get("name") == "parse_internal" for n in walk(pe[0]["body"]))
